@@ -279,10 +279,13 @@ def script_history_checks(rep, tier, seed, rng):
         rep.case({"script-history": hist, "tunit0": prog["tunit0"]})
         tag = {"initial_time_unit": prog["tunit0"], "history": hist}
         with rep.guard("script-history", tag):
-            sc = RDScript(system=system, t_sample=[0, 1], time_step=UnitValue(1, "ms"), sampling_interval=UnitValue(1, "s"),
-                          units_system=UnitsSystem(time=prog["tunit0"]))
-            kept = []
             del handed[:]
+            # (what the constructor is given is the caller's too: it may be overwritten at the first CallerEdits step)
+            t0 = rng.choice([[0, 1], np.array([0.0, 1.0]), UnitArray([0.0, 1.0], prog["tunit0"])])
+            us0 = UnitsSystem(time=prog["tunit0"])
+            sc = RDScript(system=system, t_sample=t0, time_step=UnitValue(1, "ms"), sampling_interval=UnitValue(1, "s"), units_system=us0)
+            handed += [t0, us0]
+            kept = []
             for k, st_ in enumerate(prog["steps"]):
                 op, a = st_["op"], st_["args"]
                 ops[op] = ops.get(op, 0) + 1
